@@ -10,6 +10,8 @@
 //	salts -n N -out trace.ndjson                    response salts of N real connections (freshness, marks)
 //	storm -g G -n N -sample S -out trace.ndjson     G goroutines x N genuine handshakes on ONE key at the same time (per
 //	                                                marked cipher class) + reflections of the recordings; TcpAuthTrace
+//	fault -n K -out trace.ndjson                    crypto/rand fails while response salts are drawn (K connections per
+//	                                                cipher class and failure count); TcpAuthTrace
 //	conc  -g G -n N -out trace.ndjson               code -> spec: G goroutines of lookups / marks against Updates on one
 //	                                                real list (build with -race); call/return trace for CipherListTrace
 //
@@ -63,6 +65,8 @@ func main() {
 		modeAuth(*in, *out, *keysOut, *seed, *par, to)
 	case "salts":
 		modeSalts(*out, *n, *par, *seed)
+	case "fault":
+		modeFault(*out, *n, *seed)
 	case "storm":
 		modeStorm(*out, *g, *n, *sample, *seed)
 	case "conc":
